@@ -64,7 +64,10 @@ TSearch == /\ IsEvent("search") /\ Search(ev.h, ev.d)
                IN o.amb \/ CallsMatch(c.log, ev.calls))                          \* C15: callbacks, evaluated arguments, order
            /\ searched' = searched + 1
 
-Proper == TReset \/ TNewRt \/ TRegister \/ TDeregister \/ TBuiltins \/ TCompile \/ TClone \/ TDrop \/ TSearch
+(* a search whose input cannot be converted for searching: it fails, and its error is the one a thread without history reports *)
+TSearchBad == IsEvent("search_bad") /\ ev.h \in DOMAIN live /\ ev.is_err /\ ev.fresh_same /\ UNCHANGED <<reg, live, docs, searched>>
+
+Proper == TSearchBad \/ TReset \/ TNewRt \/ TRegister \/ TDeregister \/ TBuiltins \/ TCompile \/ TClone \/ TDrop \/ TSearch
 
 RECURSIVE NextReset(_)
 NextReset(i) == IF i > Len(Rec) THEN i ELSE IF Rec[i].e = "reset" THEN i ELSE NextReset(i + 1)
